@@ -10,7 +10,7 @@ from .. import lib, hist, f1, lang, words
 
 LEVEL = f1.LEVEL
 BOUNDS = {'quick': dict(msize=4, multisets=60, perms=400, K=3, budget=1500),
-          'thorough': dict(msize=6, multisets=1500, perms=30000, K=4, budget=25000)}
+          'thorough': dict(msize=6, multisets=800, perms=15000, K=4, budget=25000)}
 
 
 def units(tier):
